@@ -37,14 +37,29 @@ if [ "$applies" != no ]; then
     if [ "$fails" = 0 ] && [ "$nres" -ge 4 ]; then suite=pass; else suite="fail:$(echo "$out" | grep -E '^test .* FAILED' | grep -v '^test result' | head -3 | tr '\n' ';')"; fi
     # demos
     demos=""
-    if [ -f "$src/demo.diff" ]; then
+    if [ -f "$src/place.json" ]; then
+      # explicit placement: {"copies": {file: dest}, "hooks": [diff, ...], "append": {file: text}, "test_args": "..."}
+      demos=$(python3 - "$src" <<'PY'
+import json,sys,shutil,subprocess,os
+src=sys.argv[1]
+pl=json.load(open(os.path.join(src,"place.json")))
+for f,d in pl.get("copies",{}).items():
+    os.makedirs(os.path.dirname(d),exist_ok=True); shutil.copy(os.path.join(src,f),d)
+for h in pl.get("hooks",[]):
+    subprocess.check_call(["git","apply",os.path.join(src,h)])
+for f,t in pl.get("append",{}).items():
+    open(f,"a").write(t)
+print(pl["test_args"])
+PY
+)
+    elif [ -f "$src/demo.diff" ]; then
       git apply "$src/demo.diff" && demos="--lib $(basename $(ls "$src"/demo_*.rs | head -1) .rs)"
     else
       for f in "$src"/*.rs; do [ -f "$f" ] || continue; cp "$f" nexosim/tests/; demos="$demos --test $(basename "$f" .rs)"; done
     fi
     if [ -n "$demos" ]; then
       if timeout 600 cargo test --offline -p nexosim $demos >/tmp/confirm/$id-with.log 2>&1; then demo_with=pass; else demo_with=fail; fi
-      git apply -R "$src/patch.diff" 2>/dev/null || git checkout -q -- nexosim/src
+      git apply -R "$src/patch.diff" 2>/dev/null || { echo "REVERT FAILED" >> /tmp/confirm/$id-with.log; }
       if timeout 600 cargo test --offline -p nexosim $demos >/tmp/confirm/$id-without.log 2>&1; then demo_without=pass; else demo_without=fail; fi
     else demo_with=nodemo; fi
   fi
